@@ -35,13 +35,48 @@ def lib(fn, *args, **kwargs):
 class Scratch:
     """Per-case temporary directory (removed at exit)."""
 
+    _count = 0
+
     def __enter__(self):
-        self.dir = tempfile.mkdtemp(prefix="vf tmp-")     # a blank in the path: readers split/join paths themselves
+        # a blank in the path: readers split/join paths themselves.  Every third directory lives on another file
+        # system than the process's temporary directory when one is available (/dev/shm): code that stages output in
+        # tempfile.gettempdir() and renames it into place only works within one file system
+        Scratch._count += 1
+        base = None
+        if Scratch._count % 3 == 0:
+            base = _other_filesystem()
+        self.dir = tempfile.mkdtemp(prefix="vf tmp-", dir=base)
+        self._cwd = None
         return self
+
+    def relative(self, name):
+        """Make the scratch directory the working directory and return the bare file name (restored at exit)."""
+        if self._cwd is None:
+            self._cwd = os.getcwd()
+            os.chdir(self.dir)
+        return name
 
     def path(self, name):
         return os.path.join(self.dir, name)
 
     def __exit__(self, *a):
+        if self._cwd is not None:
+            os.chdir(self._cwd)
         shutil.rmtree(self.dir, ignore_errors=True)
         return False
+
+
+_OTHER_FS = []
+
+
+def _other_filesystem():
+    if not _OTHER_FS:
+        cand = "/dev/shm"
+        ok = None
+        try:
+            if os.path.isdir(cand) and os.access(cand, os.W_OK) and os.stat(cand).st_dev != os.stat(tempfile.gettempdir()).st_dev:
+                ok = cand
+        except OSError:
+            ok = None
+        _OTHER_FS.append(ok)
+    return _OTHER_FS[0]
